@@ -2,6 +2,9 @@ module verifharness
 
 go 1.21
 
-require github.com/sboehler/knut v0.0.0
+require (
+	github.com/sboehler/knut v0.0.0
+	github.com/shopspring/decimal v1.3.1
+)
 
 replace github.com/sboehler/knut => /repo
